@@ -76,7 +76,8 @@ Record st := mk {
   wk : wid -> wstate;
   calls : cid -> call;
   exec : list cid;         (* ghost: functions currently executing in a thread *)
-  lowered : bool           (* ghost: total_tokens was lowered at some point *)
+  lowered : bool;          (* ghost: total_tokens was lowered at some point *)
+  ended : bool             (* the event loop has run its last iteration (it may or may not have been closed yet) *)
 }.
 
 Inductive op :=
@@ -98,7 +99,10 @@ Inductive op :=
                                         Thread.start() raises RuntimeError *)
 | ThreadRunAsync (w : wid)           (* the function running on w calls from_thread.run(coro) with a coroutine that
                                         really waits: is that coroutine's task cancelled? *)
-| ArmSpawnFail (c : cid).            (* codec helper (no effect on anything but the `sfail` bit of a call not yet made) *)
+| ArmSpawnFail (c : cid)             (* codec helper (no effect on anything but the `sfail` bit of a call not yet made) *)
+| LoopEnd.                           (* the event loop runs its last iteration (run_until_complete() returns / the runner
+                                        is shutting down); loop.close() has not necessarily happened: is_closed() is
+                                        still False for a while.  Threads abandoned by their callers may still run. *)
 
 Inductive res :=
 | RNone | RBlocked | RDone
@@ -106,12 +110,14 @@ Inductive res :=
 | RCancelled             (* CancelledError out of the segment *)
 | RCC (b : bool)         (* check_cancelled: true = raised *)
 | RRT (b : bool)         (* from_thread.run(awaiting coro): true = its task was cancelled (CancelledError in the thread) *)
+| RHang                  (* from_thread.run()/run_sync(): the hand-over landed after the loop's last iteration: the handle is
+                            never run, the thread waits on its future for ever - no value, no RunFinishedError (F51) *)
 | RRejected.
 
 Definition init_call : call := mkc false [] PNone FPending false false None None false false.
 
 Definition init (tot : nat) (pr : bool) : st :=
-  mk tot [] [] pr [] 0 (fun _ => WFree) (fun _ => init_call) [] false.
+  mk tot [] [] pr [] 0 (fun _ => WFree) (fun _ => init_call) [] false false.
 
 (* ---- the scope walk shared by _effectively_cancelled, checkpoint_if_cancelled and check_cancelled ---- *)
 Fixpoint walk (l : list (bool * bool)) : bool :=
@@ -136,9 +142,9 @@ Definition handed (k : call) : list (bool * bool) :=
 
 (* ---- record updates ---- *)
 Definition set_calls (s : st) (f : cid -> call) : st :=
-  mk (total s) (lb s) (lq s) (prune s) (idle s) (nwork s) (wk s) f (exec s) (lowered s).
+  mk (total s) (lb s) (lq s) (prune s) (idle s) (nwork s) (wk s) f (exec s) (lowered s) (ended s).
 Definition set_lim (s : st) (b q : list cid) : st :=
-  mk (total s) b q (prune s) (idle s) (nwork s) (wk s) (calls s) (exec s) (lowered s).
+  mk (total s) b q (prune s) (idle s) (nwork s) (wk s) (calls s) (exec s) (lowered s) (ended s).
 
 Definition c_ph (k : call) (p : phase) : call :=
   mkc (abandon k) (chain k) p (fut k) (evset k) (wcanc k) (fin k) (ranon k) (ncr k) (sfail k).
@@ -192,14 +198,14 @@ Definition enter_scope (s : st) (c : cid) : st :=
       let w := nwork s in
       mk (total s) (lb s) (lq s) (prune s) [] (S w) (upd (wk s) w (WQueued c))
          (upd (calls s) c (mkc (abandon k) (chain k) (PAwait w) FPending (evset k) (wcanc k) (fin k) (Some w) (ncr k) (sfail k)))
-         (exec s) (lowered s)
+         (exec s) (lowered s) (ended s)
   | w :: rest =>
       let wk1 := upd (wk s) w (WQueued c) in
       mk (total s) (lb s) (lq s) (prune s)
          (if prune s then [] else rest) (nwork s)
          (if prune s then stop_all rest wk1 else wk1)
          (upd (calls s) c (mkc (abandon k) (chain k) (PAwait w) FPending (evset k) (wcanc k) (fin k) (Some w) (ncr k) (sfail k)))
-         (exec s) (lowered s)
+         (exec s) (lowered s) (ended s)
   end.
 
 (* ---- cancellation reaching the caller task: what task.cancel() does at each suspension point ---- *)
@@ -333,10 +339,10 @@ Definition step (s : st) (o : op) : st * res :=
           match fut (calls s c) with
           | FCancelled =>
               (mk (total s) (lb s) (lq s) (prune s) (idle s) (nwork s) (upd (wk s) w WSkip) (calls s)
-                  (exec s) (lowered s), RNone)
+                  (exec s) (lowered s) (ended s), RNone)
           | _ =>
               (mk (total s) (lb s) (lq s) (prune s) (idle s) (nwork s) (upd (wk s) w (WExec c)) (calls s)
-                  (c :: exec s) (lowered s), RNone)
+                  (c :: exec s) (lowered s) (ended s), RNone)
           end
       | _ => (s, RRejected)
       end
@@ -348,7 +354,7 @@ Definition step (s : st) (o : op) : st * res :=
                         (match fut k with FPending => FRes (wrap p) | f => f end)
                         (evset k) (wcanc k) (Some p) (ranon k) (ncr k) (sfail k) in
           (mk (total s) (lb s) (lq s) (prune s) (w :: idle s) (nwork s) (upd (wk s) w WFree)
-              (upd (calls s) c k1) (remove_c c (exec s)) (lowered s), RNone)
+              (upd (calls s) c k1) (remove_c c (exec s)) (lowered s) (ended s), RNone)
       | _ => (s, RRejected)
       end
   | ThreadCheckCancelled w =>
@@ -359,12 +365,12 @@ Definition step (s : st) (o : op) : st * res :=
   | SetTotal n =>
       let '(q, b, cs) := grant_loop n (lq s) (lb s) (calls s) in
       (mk n b q (prune s) (idle s) (nwork s) (wk s) cs (exec s)
-          (orb (lowered s) (Nat.ltb n (total s))), RNone)
+          (orb (lowered s) (Nat.ltb n (total s))) (ended s), RNone)
   | ThreadReturn w =>
       match wk s w with
       | WSkip =>
           (mk (total s) (lb s) (lq s) (prune s) (w :: idle s) (nwork s) (upd (wk s) w WFree) (calls s)
-              (exec s) (lowered s), RNone)
+              (exec s) (lowered s) (ended s), RNone)
       | _ => (s, RRejected)
       end
   | NativeCancel c =>
@@ -377,7 +383,7 @@ Definition step (s : st) (o : op) : st * res :=
       else (s, RRejected)
   | ThreadRunAsync w =>
       match wk s w with
-      | WExec c => (s, RRT (walk (handed_visible (calls s c))))
+      | WExec c => (s, if ended s then RHang else RRT (walk (handed_visible (calls s c))))
       | _ => (s, RRejected)
       end
   | ArmSpawnFail c =>
@@ -388,6 +394,8 @@ Definition step (s : st) (o : op) : st * res :=
              (mkc (abandon k) (chain k) (ph k) (fut k) (evset k) (wcanc k) (fin k) (ranon k) (ncr k) true)), RNone)
       | _ => (s, RRejected)
       end
+  | LoopEnd =>
+      (mk (total s) (lb s) (lq s) (prune s) (idle s) (nwork s) (wk s) (calls s) (exec s) (lowered s) true, RNone)
   end.
 
 (* The PINNED tree (before fix 952e60b): identical except that a skipped item is not reported. *)
@@ -399,7 +407,7 @@ Definition step_pinned (s : st) (o : op) : st * res :=
           match fut (calls s c) with
           | FCancelled =>
               (mk (total s) (lb s) (lq s) (prune s) (idle s) (nwork s) (upd (wk s) w WLost) (calls s)
-                  (exec s) (lowered s), RNone)
+                  (exec s) (lowered s) (ended s), RNone)
           | _ => step s o
           end
       | _ => step s o
@@ -425,6 +433,15 @@ Fixpoint no_native_cancel_while_running (s : st) (ops : list op) : bool :=
            (no_native_cancel_while_running (fst (step s o)) r)
   end.
 
+(* boolean restriction on op sequences: no thread calls back into the loop after the loop's last iteration *)
+Fixpoint no_land_after_loop_end (ended0 : bool) (ops : list op) : bool :=
+  match ops with
+  | [] => true
+  | LoopEnd :: r => no_land_after_loop_end true r
+  | ThreadRunAsync _ :: r => andb (negb ended0) (no_land_after_loop_end ended0 r)
+  | _ :: r => no_land_after_loop_end ended0 r
+  end.
+
 (* between acquire and release of the limiter token *)
 Definition holds (k : call) : bool :=
   match ph k with
@@ -437,7 +454,7 @@ Definition holds (k : call) : bool :=
 (* case = total :: prune :: ncalls :: auto :: ops, each op = 4 integers [code; a; b; c].
    Codes: 0 Scope c sh | 1 Call c ab | 2 Resume c | 3 CancelCaller c i | 4 Deliver c | 5 StartCall c (ThreadStart of the
    worker holding c's item) | 6 FinishCall c kind v | 7 CheckCancelledCall c | 8 SetTotal n | 9 ThreadReturn w |
-   10 NativeCancel c | 11 ArmSpawnFail c | 12 RunAsyncCall c | 13 SpawnFail c.
+   10 NativeCancel c | 11 ArmSpawnFail c | 12 RunAsyncCall c | 13 SpawnFail c | 14 LoopEnd.
    Thread ops name the call; the codec looks up the worker.  With auto = 1 every scripted op is followed by `settle`
    (everything the loop and the threads do on their own until quiescence), which is what the harness can observe
    with real threads.  Output: per op 8 integers, then per call 4 integers
@@ -455,7 +472,9 @@ Definition kind_payload (k : call) (kind v : Z) : payload :=
   | 2 => PStopIter
   | 6 => if walk (handed k) then PCancelled else PVal (zn v)   (* the function lets check_cancelled()'s error propagate *)
   | 7 => PBase (zn v)
-  | _ => PVal (zn v)     (* 0 plain return; 3,4,5: value obtained through from_thread.run / run_sync / a contextvar *)
+  | 8 => PExn 999        (* an exception whose truth value is False (F47): distinguished code, the value is irrelevant *)
+  | _ => PVal (zn v)     (* 0 plain return; 3,4,5: value obtained through from_thread.run / run_sync / a contextvar;
+                            9,10: the from_thread callback raises, the function catches it and returns v *)
   end%Z.
 
 Definition do_op (s : st) (code a b c : Z) : st * res :=
@@ -477,6 +496,7 @@ Definition do_op (s : st) (code a b c : Z) : st * res :=
   | 12 => match find_worker s (zn a) false with
           | Some w => step s (ThreadRunAsync w) | None => (s, RRejected) end
   | 13 => step s (SpawnFail (zn a))
+  | 14 => step s LoopEnd
   | _ => (s, RRejected)
   end%Z.
 
@@ -509,6 +529,7 @@ Definition res_code (r : res) : Z * Z :=
   | RRet (OVal v) => (10, nz v) | RRet (OExn e) => (11, nz e) | RRet ORuntime => (12, 0)
   | RCC b => (6, bz b)
   | RRT b => (7, bz b)
+  | RHang => (8, 0)
   | RRet OCancelled => (13, 0) | RRet (OBase e) => (14, nz e) | RRet OSpawn => (15, 0)
   | RRejected => (9, 0)
   end%Z.
